@@ -166,6 +166,8 @@ def r_visit(P, R):
     if R.prop in ('C10', 'C03', 'C06', 'C18'):
         collector_pruning(P, R)
     if R.prop == 'C10':
+        from . import models
+        models.counting_model(P, R)
         support_levels(P, R)
         pick_first(P, R)
         count_refusal(P, R)
